@@ -1,7 +1,6 @@
 /* mc.c - see mc.h.  Deliberately plain C, no dependencies beyond libc. */
 #define _GNU_SOURCE
 #include "mc.h"
-
 #include <stdio.h>
 #include <stdlib.h>
 #include <string.h>
@@ -15,6 +14,14 @@
 #include <sys/stat.h>
 #include <sys/wait.h>
 #include <sys/types.h>
+
+extern int __llvm_profile_write_file(void) __attribute__((weak));
+extern void __llvm_profile_set_filename(const char *) __attribute__((weak));
+static void cov_child_file(void)
+{       /* coverage builds: the profile name was fixed in the parent; every forked worker needs its own file */
+        const char *d = getenv("VERIF_COV_DIR");
+        if (d && __llvm_profile_set_filename) { static char name[512]; snprintf(name, sizeof name, "%s/%d.profraw", d, (int) getpid()); __llvm_profile_set_filename(name); }
+}
 
 #define MAXW        64
 #define NCOUNTERS   96
@@ -446,6 +453,7 @@ static void worker_open(int k, int trunc)
 static void worker_main(int k, mc_case_fn fn, void *arg, int timeout_s, int resume)
 {
         my_slot = k;
+        cov_child_file();
         struct slot *w = &S->w[k];
         worker_open(k, 0);
         nsamples_local = 0; local_distinct = NULL; binlen = 0;
@@ -474,6 +482,8 @@ static void worker_main(int k, mc_case_fn fn, void *arg, int timeout_s, int resu
         }
 out:
         bin_flush();
+        /* coverage builds (make variant cov): workers leave through _exit, write the profile first */
+        if (__llvm_profile_write_file) __llvm_profile_write_file();
         _exit(0);
 }
 
